@@ -177,19 +177,22 @@ CLAIMED = {
         "technique": "Coq proof (frame lemma over identity-addressed targets) + differential correspondence",
     },
     "C08": {
-        "text": ("17 theorems (Coq, no axioms) over the parser/printer models (the same models C14 ties to the code): "
+        "text": ("16 theorems (Coq, no axioms) over the parser/printer models (the same models C14 ties to the code): "
                  "C08_parse_render - for every well-formed segment list of every kind (KEY escaped or quoted, index, "
-                 "slice, anchor, all nine search operators with inversion and quoted/escaped terms and regex "
+                 "slice, anchor, all nine search operators with inversion and quoted/escaped terms - also quoted with "
+                 "nested pairs of the other quote - and regex "
                  "delimiters, keywords, collectors with nested expressions, * and **) in both notations, parsing the "
                  "documented rendering gives back exactly the segments; py_int (str_of_Z n) = n for all integers; "
                  "ensure_escaped characterised as a left-to-right scan; the canonical string re-parses to the same "
                  "segments in either notation and is a fixed point (guards: wfc, and the property's own exclusion "
-                 "of dot texts that begin with '/'); == iff equal segments (guard no_dot_key = listed finding F23, "
-                 "with _refuted witness); append-then-pop restores the path for tails written after a separator "
-                 "(other tails are judged on the real code only).  The parser half of finding F21 (an escaped or "
-                 "regex search term that starts and ends with the same quote was stripped of them) is repaired and "
-                 "no finding is left inside guard wf (C08_parse_render_F21); its printer half (str() does not escape "
-                 "quotes in a term) stays a listed finding inside guard wfc (C08_canon_F21_refuted).  Side conditions over the regenerated "
+                 "of dot texts that begin with '/'); == is the comparison of the parsed segments for ANY two texts "
+                 "that parse (C08_eq_parsed) and == iff equal segments on the writer's texts (guards wf and the "
+                 "exclusion only); append-then-pop restores the path for tails written after a separator "
+                 "(other tails are judged on the real code only).  Both halves of finding F21 (an escaped or "
+                 "regex search term that starts and ends with the same quote was stripped of them by the parser; "
+                 "str() did not escape the quotes of a term) and finding F23 (== compared texts in which an escaped "
+                 "dot kept its back-slash) are repaired: no listed finding is left, the former witnesses are "
+                 "positive Examples (C08_parse_render_F21, C08_canon_F21, C08_eq_iff_F23).  Side conditions over the regenerated "
                  "character tables are closed by vm_compute, so editing an escape list in the source re-opens a "
                  "proof obligation.  Tie: all segment sequences of length <= 2 (quick) / 3 (thorough) over a "
                  "grammar of every kind, rendered by the reference writer and by str()."),
